@@ -158,6 +158,7 @@ RunResult runDaemon(const Json::Value& sc, const DaemonHooks* hooks) {
 
   g.active = false;
   g.reset();
+  g.virt_ino = sc.get("virt_ino", false).asBool(); // before the world is materialised: directories register
   g.scratch = sim.scratch();
   g.cgroot = sim.cgroot();
   g.kmsg_fd = P.kmsg_fd;
